@@ -963,8 +963,12 @@ def check_solution(p, R, sol, top, fails, obs):
                                (p.hi[i] < y[i] <= g[i] + 1e-9) or (g[i] - 1e-9 <= y[i] < p.lo[i]) for i in range(len(p.lo)))
                            for g in og):
                     toward = False
-            fails.append((pre + "bounds", "path state %d = %r is outside the space bounds" % (j, x),
-                          {"toward_outside_goal": toward}))
+            # how far out, in position coordinates, compared with the resolution length (a densified state of a CURVED
+            # motion may bulge out of the box between two validated check points: known finding F311)
+            depth = max(max(p.lo[i] - y[i], y[i] - p.hi[i], 0.0) for y in st for i in range(p.posdim()))
+            fails.append((pre + "bounds", "path state %d = %r is outside the space bounds (deepest excursion %.3g = %.2f x "
+                          "resolution length)" % (j, x, depth, depth / R["lvs"]),
+                          {"toward_outside_goal": toward, "shallow": depth <= R["lvs"], "curved": p.kind in ("rs", "dubins", "dubsym")}))
             break
     # (3) goal / approximate bookkeeping
     gd = p.goal_dist(st[-1])
